@@ -1,13 +1,15 @@
-\* object-graph, quick: 2 commits x all 25 root-tree assignments x <= 1 tag; negotiation collapsed, fixed pop order
+\* thorough: 3 commits x 27 root-tree assignments x <= 1 tag
+\* (harness/props/c05.py writes the same configuration at run time; TransferCases uses the same constants
+\*  plus SampleMod / SampleSeed)
 SPECIFICATION Spec
 CONSTANTS
-  NC = 2
-  NTP = 5
+  NC = 3
+  NTP = 3
   NT = 1
   MaxHeads = 3
-  MaxWants = 2
+  MaxWants = 1
   Modes = {"detailed"}
-  IncTag = {FALSE, TRUE}
+  IncTag = {FALSE}
   Thin = {TRUE}
   SFull = {FALSE}
   Forge = FALSE
